@@ -312,8 +312,18 @@ impl<'a> Gen<'a> {
     }
 
     pub fn program(mut self, ncmds: usize) -> Program {
+        let mut seen_rules: Vec<String> = Vec::new();
         for _ in 0..ncmds {
-            let c = self.command();
+            let mut c = self.command();
+            if let Cmd::Rule(_) = &c {
+                // the engine rejects a rule declared twice
+                let t = self.p.cmd_text(&c);
+                if seen_rules.contains(&t) {
+                    c = Cmd::Run(1);
+                } else {
+                    seen_rules.push(t);
+                }
+            }
             self.p.cmds.push(c);
         }
         // make sure something is observable at the end
